@@ -62,13 +62,3 @@ def order_1block(deps0: List[int], v0: int) -> bool:
     post: _
     """
     return _judge([0], [deps0], [v0])
-
-
-def order_2blocks(n0: int, n1: int, deps0: List[int], deps1: List[int], v0: int, v1: int) -> bool:
-    """
-    pre: 0 <= n0 <= 1 and 0 <= n1 <= 1 and 0 <= v0 <= 1 and 0 <= v1 <= 1
-    pre: len(deps0) <= 2 and len(deps1) <= 2
-    pre: all(0 <= x <= 2 for x in deps0) and all(0 <= x <= 2 for x in deps1)
-    post: _
-    """
-    return _judge([n0, n1], [deps0, deps1], [v0, v1])
